@@ -33,7 +33,7 @@ ASSUMPTIONS = [
 ]
 LEVEL_SCOPE = ("Decides the listed clauses for every order type (piece) over real arithmetic, reporting only definite disagreements; floating-point "
                "rounding and the clauses listed as undecided are not decided.")
-FLOORS = {"A1": 20, "A1b": 36, "A2": 19, "A3": 19, "D1": 20, "D2": 50, "M1": 26, "V1": 20}
+FLOORS = {"K1": 20, "A1": 20, "A1b": 36, "A2": 19, "A3": 19, "D1": 20, "D2": 50, "M1": 26, "V1": 20}
 
 # positive-by-definition parameters (valid parameterisations): widths and standard deviations; slopes are non-zero
 POSITIVE = {"width", "standard_deviation", "standard_deviation_a", "standard_deviation_b"}
@@ -62,6 +62,10 @@ def run(check: Check) -> None:
         if fn is None or fn.cls is not c:
             raise AnalysisError(f"anchor vanished: {name}.membership")
         check.analysed(fn)
+        from .common import kernel_purity
+
+        if not kernel_purity(check, fn, "K1", f"{name}.membership/pure", set(shape_params(c)) | {"height", "name"}):
+            continue  # the remaining rules interpret the kernel as a function of x and the parameters
         t = return_term(p, c, "membership")
         xname = fn.params[1].name
         # A1
@@ -226,6 +230,8 @@ def order_type_rules(check: Check) -> None:
             continue
         c = p.cls(name)
         fn = c.lookup("membership")
+        if any(o.rule == "K1" and o.status == "violation" and o.construct.startswith(name + ".") for o in check.obligations):
+            continue
         xname = fn.params[1].name
         X = ("param", xname)
         code = flatten(p, return_term(p, c, "membership"))
